@@ -47,6 +47,9 @@ def gen_cases(tier, seed):
     # session is healthy, so the next, non-overlapping request must be served over it: one TLS connection in all
     # (seed C13-4). Implementation + oracle only (the pool model has no failing opens).
     cs.append(Case("real-refused-first", "poolreal", ["4000", "8000", "1", "100:q", "1200:r"], "real-refused-first", True, model=False))
+    # ... or fails LOCALLY before the request has written anything (a host name that does not fit the address encoding): the
+    # session it was given is healthy and has sent nothing yet; the next request must be served over it (seed C11-6)
+    cs.append(Case("real-local-failure-first", "poolreal", ["4000", "8000", "1", "100:Q", "1200:r"], "real-refused-first", True, model=False))
     n = 120 if tier == "quick" else 2500
     for i in range(n):
         a = TM.gen_client_history(r, long=(tier != "quick" and i % 3 == 0))
@@ -80,7 +83,8 @@ def oracle(c, ir):
         m = re.search(r"dials=(\d+)", ir)
         if not m or not toks or not toks[0].startswith("refused/"):
             return "[malformed] refused-first scenario: %s" % ir[:200]
-        if len(toks) < 3 or toks[1].split("/")[0][:1] not in "nu":
+        later = [t for t in toks[1:] if not t.startswith("dials=") and not t.startswith("refused/")]
+        if not later or any(t.split("/")[0][:1] not in "nu" for t in later):
             return "[request_failed] the request after a refused one failed: %s" % ir[:200]
         if m.group(1) != "1":
             return ("[redial_after_refusal] the first request's target refused the connection (a stream-level failure on a healthy session); the next, "
